@@ -39,6 +39,7 @@ def run(ctx):
             ctx.guard("C03", "buf", lambda: errflow.buf(ctx, prog))
             ctx.guard("C03", "stream", lambda: errflow.stream_common(ctx, prog))
         ctx.guard("C03", "const values", lambda: data.const_census(ctx, prog, data.CONST_SCOPES["C03"], floor=1))
+        ctx.guard("C03", "panic conditions", lambda: beliefs.live_census(ctx, prog, beliefs.SCOPES["C03"][0]))
         ctx.guard("C03", "summaries", lambda: summary.check(ctx, prog, 'Generator::(input_size|new)$|<internals::generate::Generator as core::(default::Default|ops::AddAssign)|generate_easy', floor=2))
         ctx.guard("C03", "path summaries", lambda: summary.check_paths(ctx, prog, 'Generator::(input_size|new)$|<internals::generate::Generator as core::(default::Default|ops::AddAssign)|generate_easy', floor=0))
         if c in ("dbg", "unsafe_dbg", "strict_dbg"):
